@@ -8,7 +8,7 @@ from ..gen import shapes as S
 
 LEVEL = "model_checking"
 BOUND = {"quick": 10, "thorough": 13}
-UNITS = [(1.0, 1.0), (2.0, 3.0), (0.5, 1.0)]
+UNITS = [(1.0, 1.0), (2.0, 3.0), (0.5, 1.0), (1 / 3, 1 / 7), (1e-7, 1e-7), (7e-6, 1e6)]
 EPS = 1e-9
 
 
@@ -31,8 +31,9 @@ def coords(root):
 
 
 def invariants(root, m, ux, uy):
-    """[(kind, detail)] for one laid-out tree"""
+    """[(kind, detail)] for one laid-out tree (tolerances are relative to the unit in use)"""
     out = []
+    EPS = 1e-9 * min(abs(ux), abs(uy), 1.0)  # noqa: shadows the module constant on purpose
     nd = _nodes_with_depth(root)
     for n, d in nd:
         if n.x is None or n.y is None:
@@ -118,7 +119,7 @@ def check_shape(shape, only=None):
         else:
             # coordinates scale with the units
             for (x0, y0), (x1, y1) in zip(base, c):
-                if abs(x0 * ux - x1) > EPS or abs(y0 * uy - y1) > EPS:
+                if abs(x0 * ux - x1) > EPS * ux or abs(y0 * uy - y1) > EPS * uy:
                     bad("units-do-not-scale-coordinates", f"units ({ux},{uy})")
                     break
     # mirrored shape gives mirrored x
@@ -212,7 +213,7 @@ def _work(task):
     for si in range(lo, hi):
         shape = shp[si]
         acc.count("shapes")
-        acc.count("layout_calls", 3 + 2 + 11 + 6)
+        acc.count("layout_calls", len(UNITS) + 2 + 11 + 6)
         acc.count("shapes:" + classify(shape))
         if n > 1:
             acc.count("nontrivial")
